@@ -35,8 +35,13 @@ def h_roundtrip(e, cfg):
     sa = e.read(s)
     for v in sa:
         e.assume(T.band(T.tob(T.gt(v, 0)), T.tob(T.lt(v, F(dt)))))
-    e.tag(pair=f"{ek}/{ik}")
-    pe, ne = lib_extrap(ek)(x, s, p, n, dt, **KW.get(ek, {}))
+    e.tag(pair=f"{ek}/{ik}", adjust=str(cfg.get("adjust")))
+    kw = dict(KW.get(ek, {}))
+    adj = {None: None, "halve": (lambda t: t * 0.5), "shift": (lambda t: t + 1.25)}[cfg.get("adjust")]
+    adj_el = {None: (lambda v: v), "halve": (lambda v: T.mul(v, F(1, 2))), "shift": (lambda v: T.add(v, F(5, 4)))}[cfg.get("adjust")]
+    if adj is not None:
+        kw["adjust"] = adj          # documented: applied to the neighbouring state the slope is anchored at, before extrapolating
+    pe, ne = lib_extrap(ek)(x, s, p, n, dt, **kw)
     back = lib_interp(ik)(pe, ne, s, dt, **KW.get(ik, {}))
     if (ek, ik) in (("neighbors", "nearest"), ("neighbors", "previous"), ("neighbors", "linear"), ("previous", "previous"), ("next", "next"), ("linear_forward", "linear"), ("linear_backward", "linear"),
                     ("expdecay", "expdecay"), ("expratedecay", "expratedecay"), ("nearest", "nearest")):
@@ -44,7 +49,8 @@ def h_roundtrip(e, cfg):
     # the library kernels equal their documented closed forms
     xa, pa, na = e.read(x), e.read(p), e.read(n)
     for i in range(2):
-        ope, one = extrap_oracle(ek, xa[i], sa[i], pa[i], na[i], F(dt), KW.get(ek, {}))
+        pi_, ni_ = (adj_el(pa[i]) if ek == "linear_forward" else pa[i]), (adj_el(na[i]) if ek == "linear_backward" else na[i])
+        ope, one = extrap_oracle(ek, xa[i], sa[i], pi_, ni_, F(dt), KW.get(ek, {}))
         e.oblige("extrap:closed-form", T.band(T.tob(T.same(e.read(pe)[i], ope)), T.tob(T.same(e.read(ne)[i], one))), elem=i)
 
 
@@ -208,6 +214,7 @@ def h_isi(e, cfg):
 def checks(tier):
     th = tier == "thorough"
     rt = [dict(extrap=ek, interp=ik, dt=dt) for (ek, ik) in PAIRS for dt in ((1.0, 0.5, 1.3) if th else (1.0, 1.3))]
+    rt += [dict(extrap=ek, interp="linear", dt=dt, adjust=a) for ek in ("linear_forward", "linear_backward") for a in ("halve", "shift") for dt in ((1.0, 0.5, 1.3) if th else (1.3,))]
     ln = [dict(dt=dt) for dt in (1.0, 0.5, 1.3)]
     ds = []
     for d in ("poisson", "normal", "lognormal"):
